@@ -686,8 +686,17 @@ def c05(tier, replay=None):
 def c14(tier, replay=None):
     chk = Check("C14", tier, "model_checking")
     T = chk.thorough()
+    # (M) the reader's token machine for let (SmtLetParser.tla, transcribed from parse_expr_or_type / NestedSymbolTable) against
+    # the standard meaning of let on every term of a small language: Agree (single-binding lets), MultiErr (several bindings
+    # are rejected, never misread)
+    consts = {"Full": "TRUE" if T else "FALSE"}
+    mcfg = pv.write_cfg(chk.work / "SmtLetParser.cfg", constants=consts, invariants=("Agree", "MultiErr"))
+    r = pv.tlc_ok("SmtLetParser", mcfg, workers=8, timeout=7200, xmx="8g")
+    chk.add_states(r.generated, r.distinct)
+    chk.part("SmtLetParser_model", terms=r.distinct, invariants="Agree, MultiErr")
     trace = chk.work / "trace.ndjson"
     vtrace = chk.work / "values.ndjson"
+    ltrace = chk.work / "let.ndjson"
     if replay:
         rep = json.loads(Path(replay).read_text())
         rec = rep["detail"]["record"]
@@ -704,13 +713,43 @@ def c14(tier, replay=None):
                      lambda rj, rec: {"record": rec, "tlc": rj}, shards=14) if Path(trace).stat().st_size else empty
     st2 = empty if not Path(vtrace).stat().st_size else batch_check(chk, "Trace_C14", vtrace, lambda rj, rec: {"why": rj["why"], "loc": rj.get("loc", "").split("|")[0] if rj["why"].startswith("panic") else "", "cls": rj.get("cls", "")},
                       lambda rj, rec: {"record": rec, "tlc": rj}, shards=8)
-    chk.cov["traces_validated_against_impl"] = st["records"] + st2["records"]
-    chk.cov["evaluations"] = st["records"] + st2["records"]
-    chk.cov["distinct_nontrivial"] = st["records"] + st2["records"]
+    # (c) the terms of the let model as text through the real parse_expr: judged against the standard meaning of let (Ref);
+    #     differences from the model's machine are model drift (NOTE), not violations
+    st3 = empty
+    if not replay or Path(replay).exists() and json.loads(Path(replay).read_text())["detail"]["record"].get("ev") == "Let":
+        if replay:
+            pv.write_ndjson(ltrace, [json.loads(Path(replay).read_text())["detail"]["record"]])
+        else:
+            terms, _, _ = pv.generate("SmtLetParser", {"Full": "FALSE"}, "smtlet", workers=4, deps=["SmtLetParser"])
+            # all terms without the unbound name x, and a seeded sample of those that mention it (nearly all of them errors)
+            has_x = lambda t: '"x"' in json.dumps(t)
+            terms = [t for t in terms if not has_x(t)] + pv.subsample([t for t in terms if has_x(t)], 12000 if T else 3000, pv.seed())
+            pv.write_ndjson(chk.work / "let_in.ndjson", terms)
+            pv.pv(["smtlet", "--in", chk.work / "let_in.ndjson", "--out", ltrace])
+        both, stl = pv.validate("Trace_SmtLet", pv.SPEC / "Trace_SmtLet.cfg", ltrace, shards=14, kinds=("reject", "model"))
+        chk.add_states(stl["generated"], stl["distinct"])
+        st3 = {"records": stl["records"]}
+        llines = None
+        drift = [x for x in both if x["k"] == "model"]
+        for rj in [x for x in both if x["k"] == "reject"]:
+            if llines is None:
+                llines = Path(ltrace).read_text().splitlines()
+            rec = json.loads(llines[rj["l"] - 1])
+            chk.report({"why": rj["why"], "loc": rj.get("loc", "").split("|")[0] if rj["why"].startswith("panic") else "", "cls": rj.get("cls", "")},
+                       {"record": rec, "tlc": rj})
+        chk.part("SmtLetParser_transcription", same=stl["records"] - len(drift), differs=len(drift))
+        if drift:
+            print(f"NOTE: C14 spec/SmtLetParser.tla predicts another outcome than smt/parser.rs on {len(drift)} of {stl['records']} let terms (first: {drift[0].get('text')}); "
+                  "the design-level result is not transferable to this tree - the property itself is judged against the standard meaning of let", flush=True)
+    chk.cov["traces_validated_against_impl"] = st["records"] + st2["records"] + st3["records"]
+    chk.cov["evaluations"] = st["records"] + st2["records"] + st3["records"]
+    chk.cov["distinct_nontrivial"] = st["records"] + st2["records"] + st3["records"]
     chk.cov["rule"] = ("(a) every term / define-fun / get-value / assert / check-sat-assuming (1 and 2 terms) written for the C05 expression set is read back "
                        "with parse_expr / parse_command and must have the same type and value under all / sampled assignments; (b) seeded model values "
                        "(bit-vectors 1-129 bits, arrays incl. Bool index/data, 0-3 stores, let-bound sub-terms, extra white space) in the printed forms "
-                       "must be read as exactly that value; truncated / unbalanced / string-literal variants must yield an error")
+                       "must be read as exactly that value; truncated / unbalanced / string-literal variants must yield an error; (c) every term of the "
+                       "let language of SmtLetParser.tla (nested lets, shadowing of declared symbols and of outer bindings, unbound names, lets with two "
+                       "bindings) as text through parse_expr, judged against the standard meaning of let")
     sample_lines(chk, vtrace, 3, lambda r: {"id": r["id"], "text": r["text"], "kind": r["kind"]})
     chk.part("harness", **info)
     chk.assumptions += ["malformedness of a variant is decided by the harness' independent SMT-LIB front end (harness/src/smt.rs)"]
